@@ -137,6 +137,10 @@ def one_step_law(ctx, drv):
         rep = dict(entry="Gillespie_simple_contagion", stream="one-step-law", case=strip(c))
         try:
             agg = symu.Explorer(14).run(fn)
+        except symu.Budget:
+            ctx.count("law:enumeration-budget-exceeded")
+            ctx.case(rep, nontrivial=False)
+            continue
         except Exception as e:
             ctx.violation("simple contagion raised %s during law enumeration" % type(e).__name__, dict(rep, error=type(e).__name__))
             continue
